@@ -54,6 +54,7 @@ type MTx struct {
 	Fee      int64 // inputs - outputs by the model's amounts (valid txs only)
 	Coinbase bool
 	Ins      []wire.OutPoint
+	InRecs   []*utxoRec // what the signer believed it spends (nil = unknown)
 	HasWit   bool
 }
 
@@ -131,7 +132,10 @@ type World struct {
 	// every outpoint the world ever produced (valid or not, any branch)
 	Universe map[wire.OutPoint]*utxoRec
 	UniOrder []wire.OutPoint
-	extra    uint64
+	// every non-coinbase transaction the harness ever built
+	AllTx      map[chainhash.Hash]*MTx
+	AllTxOrder []*MTx
+	extra      uint64
 	params   *chaincfg.Params // for address encoding only
 }
 
@@ -303,6 +307,7 @@ func (w *World) makeTx(p *txPlan) *MTx {
 	m := &MTx{Msg: tx, Hash: tx.TxHash(), HasWit: hasWit}
 	for _, in := range p.Ins {
 		m.Ins = append(m.Ins, in.Op)
+		m.InRecs = append(m.InRecs, in.Rec)
 	}
 	return m
 }
@@ -328,6 +333,14 @@ type BlockOpts struct {
 	TsDelta  int64  // seconds after the parent's timestamp; 0 = drawn
 	Version  int32  // 0 = model's nextVersion
 	VoteMask uint32 // additional version bits to set
+	// Txs are pre-built transactions (from the mempool side of the world) to
+	// include in this order before any random ones.
+	Txs []*MTx
+	// TsAbs, when non-zero, is the absolute timestamp (raised to MTP+1).
+	TsAbs int64
+	// Dry builds the block without registering it in the world and without
+	// folding it (used for templates that are only offered for checking).
+	Dry bool
 }
 
 // segwitActive / csvActive for the block after parent by the BIP9 model.
@@ -358,6 +371,9 @@ func (w *World) Build(parent *MBlock, o BlockOpts) *MBlock {
 	ts := parent.H.ts + o.TsDelta
 	if o.TsDelta == 0 {
 		ts = parent.H.ts + int64(simkit.Range(w.C, 1, 1200, "ts-delta"))
+	}
+	if o.TsAbs != 0 {
+		ts = o.TsAbs
 	}
 	if ts <= mtp {
 		ts = mtp + 1
@@ -393,6 +409,9 @@ func (w *World) Build(parent *MBlock, o BlockOpts) *MBlock {
 
 	// transactions
 	if parentValid {
+		for _, t := range o.Txs {
+			bp.addTx(t, t.Fee)
+		}
 		n := o.NTx
 		for i := 0; i < n; i++ {
 			bp.addRandomTx()
@@ -527,7 +546,48 @@ func (w *World) Build(parent *MBlock, o BlockOpts) *MBlock {
 		b.Reason = mut.name
 	}
 	b.CumTx = parent.CumTx + uint64(len(all))
+	if o.Dry {
+		b.ID = -1
+		return b
+	}
 
+	w.register(b, parent, all, view, parentValid)
+	return b
+}
+
+// Adopt registers a block assembled by the node itself (a solved block
+// template): coinbase plus transactions the harness knows.  It is valid by
+// the model's own fold or the fold panics.
+func (w *World) Adopt(parent *MBlock, msg *wire.MsgBlock) *MBlock {
+	b := &MBlock{ID: len(w.Blocks), Parent: parent, Height: parent.Height + 1, Msg: msg, Hash: msg.BlockHash(), Mut: "node-template"}
+	for i, tx := range msg.Transactions {
+		if i == 0 {
+			b.Txs = append(b.Txs, &MTx{Msg: tx, Hash: tx.TxHash(), Coinbase: true})
+			continue
+		}
+		t := w.AllTx[tx.TxHash()]
+		if t == nil {
+			panic("chainsim: template contains a transaction the harness does not know")
+		}
+		b.Txs = append(b.Txs, t)
+	}
+	h := msg.Header
+	b.H = &hdr{parent: parent.H, height: b.Height, ts: h.Timestamp.Unix(), bits: h.Bits, version: h.Version}
+	b.Work = new(big.Int).Add(parent.Work, workOf(h.Bits))
+	b.CumTx = parent.CumTx + uint64(len(b.Txs))
+	w.register(b, parent, b.Txs, parent.View, parent.View != nil)
+	return b
+}
+
+// register records b's transactions and outputs, folds it onto the parent's
+// view and links it into the tree.
+func (w *World) register(b *MBlock, parent *MBlock, all []*MTx, view map[wire.OutPoint]*utxoRec, parentValid bool) {
+	height := b.Height
+	for _, t := range all {
+		if !t.Coinbase {
+			w.addTx(t)
+		}
+	}
 	// register outputs in the universe (every outpoint ever produced)
 	for _, t := range all {
 		for i, out := range t.Msg.TxOut {
@@ -574,7 +634,18 @@ func (w *World) Build(parent *MBlock, o BlockOpts) *MBlock {
 	parent.Children = append(parent.Children, b)
 	w.Blocks = append(w.Blocks, b)
 	w.ByHash[b.Hash] = b
-	return b
+}
+
+// addTx records a non-coinbase transaction the harness built (block side or
+// pool side) so that amounts are known independently of the node.
+func (w *World) addTx(t *MTx) {
+	if w.AllTx == nil {
+		w.AllTx = map[chainhash.Hash]*MTx{}
+	}
+	if _, ok := w.AllTx[t.Hash]; !ok {
+		w.AllTx[t.Hash] = t
+		w.AllTxOrder = append(w.AllTxOrder, t)
+	}
 }
 
 func (w *World) classify(pk []byte) (int, int) {
